@@ -206,3 +206,38 @@ theorem paired_cont_prev {cs : List Cell} {i : Nat} {c : Cell} (hc : cs[i]? = so
       simp [this] at e3
 
 end Vt
+
+namespace Vt
+set_option linter.unusedSimpArgs false
+
+/-- cut a paired list anywhere: the flag threads through -/
+theorem pairThrough_cut {cs : List Cell} (i : Nat) (hp : pairThrough false cs = some false) :
+    ∃ p, pairThrough false (cs.take i) = some p ∧ pairThrough p (cs.drop i) = some false := by
+  have h := hp
+  rw [← List.take_append_drop i cs, pairThrough_append] at h
+  cases h1 : pairThrough false (cs.take i) with
+  | none => simp [h1] at h
+  | some p => exact ⟨p, rfl, by simpa [h1] using h⟩
+
+theorem pairThrough_splice {a b mid : List Cell} {p q : Bool}
+    (h1 : pairThrough false a = some p) (h3 : pairThrough p mid = some q)
+    (h2 : pairThrough q b = some false) :
+    pairThrough false (a ++ mid ++ b) = some false := by
+  rw [List.append_assoc, pairThrough_append, h1]
+  simp only [Option.bind_some]
+  rw [pairThrough_append, h3]
+  simpa using h2
+
+/-- the flag arriving at a cell equals its continuation flag -/
+theorem pairThrough_head {p : Bool} {c : Cell} {rest : List Cell}
+    (h : pairThrough p (c :: rest) = some false) : c.cont = p ∧ pairThrough c.wide rest = some false := by
+  simp only [pairThrough] at h
+  by_cases hc : c.cont = p
+  · simp only [hc, beq_self_eq_true, ↓reduceIte] at h; exact ⟨hc, h⟩
+  · have : (c.cont == p) = false := by simpa using hc
+    simp [this] at h
+
+theorem pairThrough_nil_out {p : Bool} (h : pairThrough p [] = some false) : p = false := by
+  simpa [pairThrough] using h
+
+end Vt
